@@ -10,8 +10,9 @@ if st:
     sys.exit('/repo is dirty: ' + st)
 res = {}
 for d in sys.argv[1:]:
-    for pd in sorted(glob.glob(os.path.join(d, 'r*', 'patch.diff'))):
-        name = os.path.basename(d.rstrip('/').replace('/_out', '')) + '/' + os.path.basename(os.path.dirname(pd))
+    pds = [os.path.join(d, 'patch.diff')] if os.path.exists(os.path.join(d, 'patch.diff')) else sorted(glob.glob(os.path.join(d, 'r*', 'patch.diff')))
+    for pd in pds:
+        name = pd.replace('/tmp/wt/','').replace('/_out','').replace('/patch.diff','')
         a = subprocess.run(['git', 'apply', pd], cwd='/repo', capture_output=True, text=True)
         if a.returncode != 0:
             print(name, 'PATCH DOES NOT APPLY', a.stderr[:200]); continue
@@ -23,7 +24,7 @@ for d in sys.argv[1:]:
             alarms = [l for l in r.stdout.splitlines() if not l.startswith('KNOWN') and not l.startswith('VIOLATION') and 'tier=' not in l and not l.startswith('STALE')]
             props = sorted({l.split('property=')[1].split()[0] for l in r.stdout.splitlines() if l.startswith('VIOLATION')})
             print(name, 'ALARM ' + ','.join(props) if props else 'quiet')
-            for l in alarms[:6]:
+            for l in alarms[:int(os.environ.get('NALARM','6'))]:
                 print('    ', l[:330])
             res[name] = alarms
         finally:
